@@ -1004,6 +1004,94 @@ fn c13_parallel<TC: Configuration>(cx: &mut Cx, publishes: usize, cached: bool, 
     }
 }
 
+/// C12 on a multi-thread runtime, nothing gated: several publishes on clones of one directory truly in parallel, with
+/// commits that take a moment; the successful ones must return distinct consecutive epochs, each returned root hash must be
+/// the hash of the serial application up to that batch, and the final state must be that of the serial application
+fn c12_parallel<TC: Configuration>(cx: &mut Cx, rounds: usize, cached: bool, r: &mut Rng) {
+    let cfg = cfg_name::<TC>();
+    let rt = tokio::runtime::Builder::new_multi_thread().worker_threads(4).enable_all().build().unwrap();
+    for round in 0..rounds {
+        let k = 2 + r.below(3) as usize;
+        let (_, labels) = base_history();
+        let batches: Vec<Vec<(Vec<u8>, Vec<u8>)>> = (0..k)
+            .map(|i| {
+                let mut b = vec![(labels[(round + i) % 12].clone(), vec![70 + i as u8, round as u8])];
+                if r.chance(1, 2) {
+                    b.push((vec![b'q', round as u8, i as u8], vec![71, i as u8]));
+                }
+                if r.chance(1, 3) {
+                    // a label shared between the parallel batches
+                    b.push((labels[round % 12].clone(), vec![72 + i as u8, round as u8]));
+                    b.dedup_by(|a, c| a.0 == c.0);
+                }
+                b
+            })
+            .collect();
+        let what = format!("[cfg {} cached {} multi-thread runtime, {} publishes in parallel on clones, round {}]", cfg, cached, k, round);
+        let res: Result<(), String> = rt.block_on(async {
+            let (base, _) = base_history();
+            let ctl = Ctl::new(1);
+            let db = GateDb { inner: AsyncInMemoryDatabase::new(), ctl: ctl.clone() };
+            let dir = gdir::<TC>(&db, cached).await;
+            for b in &base {
+                dir.publish(upd(b)).await.map_err(|e| format!("{:?}", e))?;
+            }
+            let e0 = dir.get_epoch_hash().await.map_err(|e| format!("{:?}", e))?.0;
+            ctl.write_delay_ms.store(1, Ordering::SeqCst);
+            let mut hs = vec![];
+            for b in &batches {
+                let (d, b) = (dir.clone(), b.clone());
+                hs.push(tokio::spawn(async move { d.publish(upd(&b)).await.map(|e| (e.0, e.1)).map_err(|e| format!("{:?}", e)) }));
+            }
+            let mut outs = vec![];
+            for h in hs {
+                outs.push(h.await.map_err(|e| e.to_string())?);
+            }
+            ctl.write_delay_ms.store(0, Ordering::SeqCst);
+            let mut ok: Vec<(u64, [u8; 32], usize)> = outs.iter().enumerate().filter_map(|(i, o)| o.as_ref().ok().map(|e| (e.0, e.1, i))).collect();
+            ok.sort_by_key(|x| x.0);
+            // serial application in epoch order
+            let sdb = AsyncInMemoryDatabase::new();
+            let sdir = Directory::<TC, _, _>::new(StorageManager::new_no_cache(sdb.clone()), HardCodedAkdVRF {}, AzksParallelismConfig::disabled()).await.unwrap();
+            for b in &base {
+                sdir.publish(upd(b)).await.unwrap();
+            }
+            let mut expect = e0;
+            for (e, h, i) in &ok {
+                let se = sdir.publish(upd(&batches[*i])).await.map_err(|e| format!("serial application failed: {:?}", e))?;
+                if se.0 == expect {
+                    // a batch that changes nothing returns the current epoch: allowed, it takes no epoch
+                    if *e != se.0 || *h != se.1 {
+                        return Err(format!("a publish that changes nothing serially returned ({}, {}) instead of ({}, {})", e, hx(h), se.0, hx(&se.1)));
+                    }
+                    continue;
+                }
+                expect += 1;
+                if *e != expect {
+                    return Err(format!("the successful publishes returned epochs {:?}, expected distinct consecutive ones from {}", ok.iter().map(|x| x.0).collect::<Vec<_>>(), e0 + 1));
+                }
+                if *h != se.1 {
+                    return Err(format!("the publish that returned epoch {} returned root hash {} but applying the successful batches one after another gives {}", e, hx(h), hx(&se.1)));
+                }
+            }
+            let fin = dir.get_epoch_hash().await.map_err(|e| format!("{:?}", e))?;
+            let sfin = sdir.get_epoch_hash().await.unwrap();
+            if (fin.0, fin.1) != (sfin.0, sfin.1) {
+                return Err(format!("the directory ends at ({}, {}) but serial application of the successful batches ends at ({}, {})", fin.0, hx(&fin.1), sfin.0, hx(&sfin.1)));
+            }
+            if canon_dump(db.inner.batch_get_all_direct().await.unwrap()) != canon_dump(sdb.batch_get_all_direct().await.unwrap()) {
+                return Err("the final database differs from applying the successful batches one after another".to_string());
+            }
+            Ok(())
+        });
+        cx.stat("c12_parallel_rounds");
+        if let Err(e) = res {
+            cx.fail(format!("C12 {}: {}", what, e));
+            return;
+        }
+    }
+}
+
 pub fn run(seed: u64, tier: u32, which: &str) -> Cx {
     let rt = tokio::runtime::Builder::new_current_thread().enable_all().build().unwrap();
     let mut cx = Cx::new();
@@ -1104,6 +1192,12 @@ pub fn run(seed: u64, tier: u32, which: &str) -> Cx {
             }
         }
     });
+    if which == "c12" {
+        let n = if tier == 0 { 12 } else { 150 };
+        c12_parallel::<W>(&mut cx, n, true, &mut r);
+        c12_parallel::<W>(&mut cx, n, false, &mut r);
+        c12_parallel::<E>(&mut cx, n / 2, true, &mut r);
+    }
     if which == "c13" {
         // readers truly parallel to a publisher on the same instance (multi-thread runtime, slow commits); with
         // commits that the database rejects every second time
